@@ -9,6 +9,7 @@ package main
 
 import (
 	"fmt"
+	"strings"
 
 	kvql "github.com/c4pt0r/kvql"
 )
@@ -187,7 +188,8 @@ func c08Emit(e *emitter, rp c08Replay) {
 		flat = append(flat, c...)
 	}
 	rp.Want = sliceOf(flat, rp.Start, rp.Count)
-	kindN := map[string]int{"LimitPlan": 0, "FinalLimitPlan": 1, "select": 2, "ordered": 3, "aggregated": 4, "delete": 5}[rp.Kind]
+	kindN := map[string]int{"LimitPlan": 0, "FinalLimitPlan": 1, "select": 2, "ordered": 3, "aggregated": 4, "delete": 5,
+		"aggregated-all": 6, "select-range": 7, "select-keys": 8, "delete-keys": 9}[rp.Kind]
 	term := fmt.Sprintf("Case %d %d %d %d %s %s %s", kindN, rp.B, rp.Start, rp.Count,
 		coqNatListList(rp.Chunks), optNatList(rp.HasBat, rp.ObsB), optNatList(rp.HasRow, rp.ObsR))
 	nontrivial := len(flat) > 0 && (rp.Start > 0 || rp.Count < len(flat))
@@ -356,10 +358,26 @@ func runStmtCase(e *emitter, kind string, n, B, s, c int) {
 		base = "select key, count(1) where key ^= 'k' group by key"
 	case "delete":
 		base = "select * where key ^= 'k'"
+	case "aggregated-all":
+		// one row for all pairs: the limit is pushed down into AggregatePlan
+		base = "select count(1), sum(int(value)) where key ^= 'k'"
+	case "select-range":
+		base = "select * where key >= 'k' & key < 'l' & value != 'zz'"
+	case "select-keys", "delete-keys":
+		// point reads: the limit sits on top of a MultiGetPlan (and, for DELETE, must keep
+		// the planner from turning the statement into a blind RemovePlan)
+		ks := []string{}
+		for i := 0; i < n+1; i++ {
+			ks = append(ks, fmt.Sprintf("'k%03d'", i))
+		}
+		base = "select * where key in (" + strings.Join(ks, ", ") + ")"
 	}
 	lim = fmt.Sprintf("%s limit %d, %d", base, s, c)
 	if kind == "delete" {
 		lim = fmt.Sprintf("delete where key ^= 'k' limit %d, %d", s, c)
+	}
+	if kind == "delete-keys" {
+		lim = "delete" + strings.TrimPrefix(base, "select *") + fmt.Sprintf(" limit %d, %d", s, c)
 	}
 	st := c08Store(n)
 	un := runQuery(base, st.clone(), true, B, true)
@@ -380,7 +398,7 @@ func runStmtCase(e *emitter, kind string, n, B, s, c int) {
 	}
 	rp := c08Replay{Kind: kind, Query: lim, B: B, Start: s, Count: c, Store: n}
 	for _, batch := range []bool{true, false} {
-		if kind == "delete" && !batch {
+		if (kind == "delete" || kind == "delete-keys") && !batch {
 			continue // DeletePlan always drains its child in batches
 		}
 		st2 := st.clone()
@@ -418,7 +436,7 @@ func runStmtCase(e *emitter, kind string, n, B, s, c int) {
 			if res.Err != nil {
 				errText = res.Err.Error()
 			}
-			if kind == "delete" {
+			if kind == "delete" || kind == "delete-keys" {
 				for _, cl := range st2.log {
 					if cl.Op == "BatchDelete" {
 						for _, k := range cl.Ks {
@@ -456,7 +474,7 @@ func runStmtCase(e *emitter, kind string, n, B, s, c int) {
 			rp.HasBat, rp.ObsB, rp.PanicB = true, ids, pn
 			// chunking seen by the limit logic in batch mode
 			total := len(un.Rows)
-			if kind == "aggregated" {
+			if kind == "aggregated" || kind == "aggregated-all" {
 				// AggregatePlan serves its prepared group rows in chunks of B
 				sizes = nil
 				for left := total; left > 0; left -= B {
@@ -553,7 +571,7 @@ func runC08(c *runCtx) error {
 		}
 	}
 	// part B: statements
-	kinds := []string{"select", "ordered", "aggregated", "delete"}
+	kinds := []string{"select", "ordered", "aggregated", "delete", "aggregated-all", "select-range", "select-keys", "delete-keys"}
 	for _, kind := range kinds {
 		for _, B := range []int{1, 2, 3} {
 			ns := []int{0, 1, B, B + 1, 2 * B, 3*B + 1}
